@@ -150,7 +150,8 @@ def level (j : Json) : Except String Json := do
     | none => jstr "other-class"
     | some (.error e) => Json.mkObj [("err", jerr e)]
     | some (.ok r) => Json.mkObj [("ok", jfloat r)]
-  let s := specLevelOp sub b1.magnitude x y
+  -- the right operand, given in the same unit with possibly another prefix, re-expressed in the left one's
+  let s := specLevelOp sub b1.magnitude x (y * b2.magnitude / b1.magnitude)
   pure (Json.mkObj [("model", m), ("spec", jfloat s)])
 
 def handle (j : Json) : Except String Json := do
